@@ -183,3 +183,198 @@ class define_radial_gradient:
         "user-space-units": lambda svg_defs: svg_defs.children[0].attrib["gradientUnits"] == "userSpaceOnUse",
     }
     native = False
+
+
+# ---- _apply_gradient_paint: the fill refers to a definition of THIS gradient ----------------
+#
+# Gradients are shared inside one OT-SVG document through reuse_cache.gradient_ids.  Ghost
+# state: def_k(id), def_t(id) = the (paint, transform) an id was defined with.  Cache
+# invariant: every entry (key -> id) has def(id) == (key.paint, key.transform).  The gradient
+# is seen through spec.GhostGradient (identity k; apply_transform / round summarised).
+
+_GID = "nanoemoji.svg._define_gradient"
+
+
+def _def_k(i):
+    return ufn("gradient_def_paint", "int", i)
+
+
+def _def_t(i):
+    return tuple(ufn(f"gradient_def_transform_{j}", "real", i) for j in range(6))
+
+
+@contract(_GID, props=["C02", "C13"])
+class define_gradient_ghost:
+    assumed = True
+    args = {"svg_defs": Opaque("any"), "paint": Instance("spec.GhostGradient", k=Int), "transform": AFF}
+    returns = Str
+    ensures = {"defines-what-it-is-given": lambda paint, transform, result: _def_k(result) == paint.k and _def_t(result) == spec.aff(transform)}
+    native = False
+    note = "returns the id of a new gradient element built from (paint, transform); the builders _define_linear_gradient / _define_radial_gradient / _apply_gradient_common_parts are under contract themselves"
+
+
+_KEY = Record("nanoemoji.svg.GradientReuseKey", paint=Instance("spec.GhostGradient", k=Int), transform=AFF)
+
+
+def _norm(paint, transform):
+    """(k, affine) the code must look up: the gradient after folding `transform` in (unless it
+    is the identity to within picosvg's tolerance), both rounded to 3 digits"""
+    from picosvg.svg_transform import Affine2D
+
+    r = paint.apply_transform(transform, False)
+    folded = (r.paint.round(3).k, tuple(r.gettransform().round(3)) if r.has_residual else spec.ID)
+    plain = (paint.round(3).k, tuple(transform.round(3)))
+    return plain if transform.almost_equals(Affine2D.identity()) else folded
+
+
+@contract("nanoemoji.svg._apply_gradient_paint", props=["C02", "C13", "C06"])
+class apply_gradient_paint_cache:
+    scope = "finite: a cache holding one arbitrary entry (by symmetry: any entry) or none"
+    args = {
+        "svg_defs": Opaque("any"),
+        "svg_path": Obj(attrib=Const({})),
+        "paint": Instance("spec.GhostGradient", k=Int),
+        "reuse_cache": OneOf(Obj(gradient_ids=AssocOf((_KEY, Str))), Obj(gradient_ids=AssocOf())),
+        "transform": AFF,
+    }
+    globals = {"is_transform": Const(spec.ghost_is_transform), "cast": Const(spec.ghost_cast)}
+    # callers (svg._apply_paint) see only that it was called, with which arguments
+    returns = Const(None)
+    modular_ensures = {}
+    requires = [
+        # cache invariant on entry
+        lambda reuse_cache: all(_def_k(v) == k.paint.k and _def_t(v) == spec.aff(k.transform) for k, v in reuse_cache.gradient_ids.items())
+    ]
+    ensures = {
+        "fill-is-a-reference": lambda svg_path, reuse_cache: any(svg_path.attrib["fill"] == "url(#" + v + ")" for k, v in reuse_cache.gradient_ids.items()),
+        # the referenced definition is the normalised form of this paint under this transform
+        "references-this-gradient": lambda svg_path, paint, transform, reuse_cache: all(
+            (svg_path.attrib["fill"] != "url(#" + v + ")") or (_def_k(v), _def_t(v)) == _norm(paint, transform)
+            for k, v in reuse_cache.gradient_ids.items()
+        ),
+        "cache-invariant-kept": lambda reuse_cache: all(
+            _def_k(v) == k.paint.k and _def_t(v) == spec.aff(k.transform) for k, v in reuse_cache.gradient_ids.items()
+        ),
+        "old-entries-kept": lambda reuse_cache, old: all(
+            any(same(k, k0) and v == v0 for k, v in reuse_cache.gradient_ids.items()) for k0, v0 in old.reuse_cache.gradient_ids.items()
+        ),
+    }
+    assumes = (
+        "the gradient is abstracted to spec.GhostGradient: apply_transform / round are uninterpreted functions of the gradient's identity (what they do to geometry is proved in PaintLinearGradient/PaintRadialGradient.apply_transform and checked in the bounded tier)",
+        "distinct definitions get distinct ids (svg._ensure_has_id / the id counter; bounded tier: duplicate-id clause of the document structure)",
+    )
+    native = False
+
+
+@contract("nanoemoji.svg._apply_gradient_paint", props=["C02", "C13"])
+class apply_gradient_paint_nocache:
+    """without a cache: one definition per call, from exactly what was passed"""
+
+    args = {
+        "svg_defs": Opaque("any"),
+        "svg_path": Obj(attrib=Const({})),
+        "paint": Instance("spec.GhostGradient", k=Int),
+        "reuse_cache": Const(None),
+        "transform": AFF,
+    }
+    globals = {"is_transform": Const(spec.ghost_is_transform), "cast": Const(spec.ghost_cast)}
+    ensures = {
+        "fill-refers-to-a-definition-of-what-was-passed": lambda svg_path, paint, transform, calls: svg_path.attrib["fill"] == "url(#" + calls[_GID][0].result + ")"
+        and _def_k(calls[_GID][0].result) == paint.k
+        and _def_t(calls[_GID][0].result) == spec.aff(transform),
+    }
+    native = False
+
+
+# ---- _apply_paint: transform paints accumulate, gradients get the conjugated transform -------
+
+_AP = "nanoemoji.svg._apply_paint"
+_AGP = "nanoemoji.svg._apply_gradient_paint"
+_INV = "picosvg.svg_transform.Affine2D.inverse"
+_AP_COMMON = {
+    "svg_defs": Opaque("any"),
+    "el": Obj(attrib=Const({})),
+    "upem_to_vbox": AFF,
+    "reuse_cache": Obj(gradient_ids=AssocOf()),
+    "transform": AFF,
+}
+_TPAINTS = [
+    Record("nanoemoji.paint." + n, paint=Opaque("Paint"), **kw)
+    for n, kw in (
+        ("PaintTransform", dict(transform=TupleOf(Real, Real, Real, Real, Real, Real))),
+        ("PaintTranslate", dict(dx=Real, dy=Real)),
+        ("PaintScale", {}),
+        ("PaintScaleUniform", {}),
+        ("PaintScaleAroundCenter", {}),
+        ("PaintScaleUniformAroundCenter", {}),
+        ("PaintRotate", {}),
+        ("PaintRotateAroundCenter", {}),
+        ("PaintSkew", {}),
+        ("PaintSkewAroundCenter", {}),
+    )
+]
+
+
+@contract(_AP, props=["C02", "C06", "C16"])
+class apply_paint_transform:
+    """a transform paint: its own affine is applied BEFORE whatever is pending (COLR
+    semantics), and the walk goes on with the child"""
+
+    args = dict(_AP_COMMON, paint=OneOf(*_TPAINTS))
+    returns = Const(None)
+    modular_ensures = {}
+    ensures = {
+        "own-affine-first-then-pending": lambda el, paint, transform, upem_to_vbox, calls: len(calls[_AP]) == 1
+        and spec.aff(calls[_AP][0].args.transform) == spec.mul(spec.aff(transform), spec.ot_transform(paint))
+        and same(calls[_AP][0].args.paint, paint.paint)
+        and calls[_AP][0].args.el is el
+        and spec.aff(calls[_AP][0].args.upem_to_vbox) == spec.aff(upem_to_vbox),
+        "nothing-set-here": lambda el: len(el.attrib) == 0,
+    }
+    assumes = ("recursion hypothesis on the child paint (paint trees are finite)",)
+    native = False
+
+
+@contract(_AP, props=["C02", "C06", "C16"])
+class apply_paint_gradient:
+    """a gradient: geometry mapped into viewBox units by V = upem_to_vbox, and the pending
+    font-space transform T handed on as V T V^-1 (so that, in viewBox coordinates q = V p, the
+    colour at q is the gradient's colour at T^-1 p)"""
+
+    args = dict(_AP_COMMON, paint=OneOf(LIN, RAD))
+    requires = [
+        lambda paint, upem_to_vbox: abs(spec.det(spec.aff(upem_to_vbox))) > 2 ** -52
+        # viewBox maps are uniform scales (+ flip) and translations; radii are lengths
+        and upem_to_vbox.a != 0 and abs(upem_to_vbox.a) == abs(upem_to_vbox.d) and upem_to_vbox.b == 0 and upem_to_vbox.c == 0,
+        lambda paint: kind(paint) != "PaintRadialGradient" or (paint.r0 >= 0 and paint.r1 >= 0),
+    ]
+    ensures = {
+        # (the conjugation happens -- and V is inverted -- exactly when something is pending)
+        "conjugated-iff-pending": lambda transform, calls: (spec.aff(transform) != spec.ID) if _INV in calls else (spec.aff(transform) == spec.ID),
+        "pending-transform-conjugated": lambda transform, upem_to_vbox, calls: spec.aff(calls[_AGP][0].args.transform)
+        == (spec.ltr(spec.aff(calls[_INV][0].result), spec.aff(transform), spec.aff(upem_to_vbox)) if _INV in calls else spec.ID),
+        "inverse-is-of-the-viewbox-map": lambda upem_to_vbox, calls: _INV not in calls or spec.aff(calls[_INV][0].args.self) == spec.aff(upem_to_vbox),
+        "geometry-in-viewbox-units": lambda paint, upem_to_vbox, calls: (
+            _lin3(calls[_AGP][0].args.paint) == tuple(spec.pt(spec.aff(upem_to_vbox), p) for p in _lin3(paint))
+            if kind(paint) == "PaintLinearGradient"
+            else (
+                tuple(calls[_AGP][0].args.paint.c0) == spec.pt(spec.aff(upem_to_vbox), paint.c0)
+                and tuple(calls[_AGP][0].args.paint.c1) == spec.pt(spec.aff(upem_to_vbox), paint.c1)
+                and calls[_AGP][0].args.paint.r0 == paint.r0 * abs(upem_to_vbox.a)
+                and calls[_AGP][0].args.paint.r1 == paint.r1 * abs(upem_to_vbox.a)
+            )
+        ),
+        "same-element-and-cache": lambda el, reuse_cache, calls: calls[_AGP][0].args.svg_path is el and calls[_AGP][0].args.reuse_cache is reuse_cache,
+    }
+    native = False
+
+
+@contract(_AP, props=["C02", "C17"])
+class apply_paint_unsupported:
+    """anything that is neither a solid, a gradient nor a transform paint is an error, not a
+    silently missing fill"""
+
+    args = dict(_AP_COMMON, paint=OneOf(Record("nanoemoji.paint.PaintGlyph", glyph=Str, paint=Opaque("Paint")), Record("nanoemoji.paint.PaintColrLayers", layers=Const(()))))
+    raises = {"NotImplementedError": lambda: True}
+    ensures = {}
+    native = False
